@@ -735,6 +735,136 @@ theorem serves_for_all_configs_partial (s : TcpProd.Sys) (id : Nat)
     · exact Or.inr ⟨n + 1, h, by rw [hempty]; simp⟩)).2
   rw [this]; simp
 
+/-! #### depth: how many events the channel takes and how many one wake-up ingests (capacity plumbing) -/
+
+theorem trySend_cap (s : TcpProd.Sys) (id : Nat) : (s.trySend id).cap = s.cap := by
+  unfold TcpProd.Sys.trySend; split <;> rfl
+
+/-- **every emission within the configured buffer is accepted, at any depth.** Starting from a channel that holds
+    `q` events, `k` emissions in a row (the transport thread not running at all in between) are ALL taken by the
+    channel as long as `q + k ≤ buffer_size` (always, without a limit), in order. -/
+theorem within_buffer_all_accepted (ids : List Nat) (s : TcpProd.Sys)
+    (h : s.cap = none ∨ ∃ n, s.cap = some n ∧ s.chan.length + ids.length ≤ n) :
+    (TcpProd.sendAll s ids).chan = s.chan ++ ids ∧ (TcpProd.sendAll s ids).accepted = s.accepted ++ ids := by
+  induction ids generalizing s with
+  | nil => simp [TcpProd.sendAll]
+  | cons id rest ih =>
+    have h1 := send_accepted_within_buffer s id (by
+      rcases h with h | ⟨n, h, hn⟩
+      · exact Or.inl h
+      · exact Or.inr ⟨n, h, by simp at hn; omega⟩)
+    have h2 := ih (s.trySend id) (by
+      rcases h with h | ⟨n, h, hn⟩
+      · exact Or.inl (by rw [trySend_cap]; exact h)
+      · refine Or.inr ⟨n, by rw [trySend_cap]; exact h, ?_⟩
+        rw [h1.1]; simp at hn ⊢; omega)
+    have e : TcpProd.sendAll s (id :: rest) = TcpProd.sendAll (s.trySend id) rest := by
+      simp [TcpProd.sendAll]
+    rw [e, h2.1, h2.2, h1.1, h1.2]; simp
+
+/-- … and an emission that meets a channel holding `buffer_size` events changes nothing (dropped, the documented
+    back-pressure rule): the bound of `within_buffer_all_accepted` is exact. -/
+theorem full_channel_drops (s : TcpProd.Sys) (n id : Nat) (hc : s.cap = some n) (hf : n ≤ s.chan.length) :
+    s.trySend id = s := by
+  have : s.room = false := by simp [TcpProd.Sys.room, hc]; omega
+  simp [TcpProd.Sys.trySend, this]
+
+theorem tSteps_succ (k : Nat) (s : TcpProd.Sys) : TcpProd.tSteps (k + 1) s = TcpProd.tStep (TcpProd.tSteps k s) := by
+  induction k generalizing s with
+  | zero => rfl
+  | succ k ih =>
+    show TcpProd.tSteps (k + 1) (TcpProd.tStep s) = _
+    rw [ih]; rfl
+
+theorem tStep_recv (s : TcpProd.Sys) (hloop : s.tpc = .loop) (id : Nat) (rest : List Nat)
+    (hch : s.chan = id :: rest) (hlt : s.buffered.length < s.limit) :
+    (TcpProd.tStep s).chan = rest ∧ (TcpProd.tStep s).buffered = s.buffered ++ [id] ∧
+    (TcpProd.tStep s).tpc = .loop ∧ (TcpProd.tStep s).cap = s.cap ∧
+    (TcpProd.tStep s).delivered = s.delivered ∧ (TcpProd.tStep s).wakePending = s.wakePending := by
+  have hn : ¬ s.limit ≤ s.buffered.length := by omega
+  simp [TcpProd.tStep, hloop, TcpProd.tLoop, hn, hch]
+
+/-- `k` iterations of the read loop take exactly the `k` oldest events, as long as the channel has them and the
+    batch stays within `buffer_limit` -/
+theorem read_loop_takes (k : Nat) (s : TcpProd.Sys) (hloop : s.tpc = .loop) (hk : k ≤ s.chan.length)
+    (hl : s.buffered.length + k ≤ s.limit) :
+    (TcpProd.tSteps k s).chan = s.chan.drop k ∧ (TcpProd.tSteps k s).buffered = s.buffered ++ s.chan.take k ∧
+    (TcpProd.tSteps k s).tpc = .loop ∧ (TcpProd.tSteps k s).cap = s.cap ∧
+    (TcpProd.tSteps k s).delivered = s.delivered ∧ (TcpProd.tSteps k s).wakePending = s.wakePending := by
+  induction k generalizing s with
+  | zero => simp [TcpProd.tSteps, hloop]
+  | succ k ih =>
+    cases hch : s.chan with
+    | nil => rw [hch] at hk; simp at hk
+    | cons id rest =>
+      obtain ⟨a1, b1, c1, d1, e1, f1⟩ := tStep_recv s hloop id rest hch (by omega)
+      have hlim : (TcpProd.tStep s).limit = s.limit := by simp [TcpProd.Sys.limit, d1]
+      obtain ⟨a, b, c, d, e, f⟩ := ih (TcpProd.tStep s) c1
+        (by rw [a1]; rw [hch] at hk; simp at hk; omega) (by rw [b1, hlim]; simp; omega)
+      have hs : TcpProd.tSteps (k + 1) s = TcpProd.tSteps k (TcpProd.tStep s) := rfl
+      rw [hs]
+      refine ⟨by rw [a, a1]; simp, by rw [b, b1, a1]; simp, c, by rw [d, d1], by rw [e, e1], by rw [f, f1]⟩
+
+/-- **one wake-up ingests min(queue, buffer_limit) events, whatever the depth.** Entering the read loop with an
+    empty batch and `q` events in the channel, the transport fans out exactly the `min q buffer_limit` oldest
+    events as ONE batch, leaves the others in the channel, and re-arms its own waker exactly when it stopped at
+    the limit (`q ≥ buffer_limit`). No smaller hidden limit cuts a batch; no event within the limit waits for a
+    later wake-up. -/
+theorem read_loop_batch (s : TcpProd.Sys) (hloop : s.tpc = .loop) (hb : s.buffered = []) :
+    let k := min s.chan.length s.limit
+    (TcpProd.tSteps (k + 1) s).delivered = s.delivered ++ s.chan.take k ∧
+    (TcpProd.tSteps (k + 1) s).chan = s.chan.drop k ∧
+    (TcpProd.tSteps (k + 1) s).tpc = .idle ∧
+    (TcpProd.tSteps (k + 1) s).buffered = [] ∧
+    (TcpProd.tSteps (k + 1) s).wakePending = (s.wakePending || decide (s.limit ≤ s.chan.length)) := by
+  intro k
+  have hk1 : k ≤ s.chan.length := Nat.min_le_left _ _
+  have hk2 : k ≤ s.limit := Nat.min_le_right _ _
+  obtain ⟨a, b, c, d, e, f⟩ := read_loop_takes k s hloop hk1 (by rw [hb]; simpa using hk2)
+  rw [tSteps_succ]
+  generalize TcpProd.tSteps k s = t at a b c d e f
+  have hlim : t.limit = s.limit := by simp [TcpProd.Sys.limit, d]
+  have hbl : t.buffered.length = k := by rw [b, hb]; simp [List.length_take]; omega
+  by_cases hfull : s.limit ≤ s.chan.length
+  · have hkl : k = s.limit := Nat.min_eq_right hfull
+    have : t.limit ≤ t.buffered.length := by rw [hlim, hbl, hkl]; exact Nat.le_refl _
+    have hstep : TcpProd.tStep t = ({ t with wakePending := true } : TcpProd.Sys).fanout := by
+      simp only [TcpProd.tStep, c, TcpProd.tLoop, if_pos this]
+    rw [hstep]
+    simp [TcpProd.Sys.fanout, a, b, e, hb, hfull]
+  · have hkl : k = s.chan.length := Nat.min_eq_left (by omega)
+    have hnot : ¬ t.limit ≤ t.buffered.length := by rw [hlim, hbl, hkl]; omega
+    have hnil : t.chan = [] := by rw [a, hkl]; simp
+    have hstep : TcpProd.tStep t = t.fanout := by
+      simp only [TcpProd.tStep, c, TcpProd.tLoop, if_neg hnot, hnil]
+    rw [hstep]
+    simp [TcpProd.Sys.fanout, hnil, b, e, f, hb, hfull, hkl]
+
+/-- the number the fan-out uses for each client's queue, the number the read loop stops at and the capacity of
+    the channel are ONE configuration value: the transport model's `limit`, the producer model's `limit` / `cap`
+    and `plumb` agree for every `buffer_size`; the builder's default is 1024 for all three, and the exporter
+    starts with it. -/
+theorem capacity_plumbing (bs : Option Nat) (s : State) (h : initTransport {} bs = some s)
+    (shape : TcpProd.Shape) (gate : Bool) (progs : List (List Nat)) :
+    s.limit = (plumb bs).clientLimit ∧ s.limit = (plumb bs).batchLimit ∧
+    (TcpProd.init shape bs gate progs).limit = (plumb bs).batchLimit ∧
+    (TcpProd.init shape bs gate progs).cap = (plumb bs).chanCap := by
+  have e := init_eq {} bs s h
+  subst e
+  exact ⟨rfl, rfl, rfl, rfl⟩
+
+theorem default_config_is_1024 :
+    plumb defaultBufferSize = ⟨some 1024, 1024, 1024⟩ ∧ (initTransport {} defaultBufferSize).isSome = true := by
+  decide
+
+/-- non-vacuity: five queued events, `buffer_size` 3: one wake-up fans out `[1, 2, 3]`, leaves `[4, 5]` and re-arms
+    the waker; a sixth emission into a full channel of 3 is dropped, three into an empty one are all taken -/
+example :
+    (TcpProd.tSteps 4 { cap := some 3, tpc := .loop, chan := [1, 2, 3, 4, 5] }).delivered = [1, 2, 3] ∧
+    (TcpProd.tSteps 4 { cap := some 3, tpc := .loop, chan := [1, 2, 3, 4, 5] }).chan = [4, 5] ∧
+    (TcpProd.tSteps 4 { cap := some 3, tpc := .loop, chan := [1, 2, 3, 4, 5] }).wakePending = true ∧
+    (TcpProd.sendAll { cap := some 3 } [7, 8, 9, 10]).chan = [7, 8, 9] := by decide
+
 /-! #### the two other orders of the producer's operations lose wake-ups (witnesses; NOT the code) -/
 
 /-- `let w = tx.is_empty(); try_send(..); if w { wake() }` (seeded change C11-2): emitter 1 samples a non-empty
@@ -798,10 +928,10 @@ theorem src_client_branch_writes_only :
     Generated.tcp_client_interest = "Interest::READABLE.add(Interest::WRITABLE)" := by decide
 
 /-- the accept loop takes a fresh token inside the loop for every connection and only leaves on WouldBlock
-    (`break`) or an accept error (`return`) -/
+    (`break`); EINTR asks again (`continue`) and any other accept error leaves the accept loop only (`break`, since fix), never the transport thread -/
 theorem src_accept_loop :
     Generated.tcp_accept_loop_tokens =
-      ["loop", "accept", "next", "register", "register", "increment_clients", "insert", "break", "return"] := by
+      ["loop", "accept", "next", "register", "register", "increment_clients", "insert", "break", "continue", "break"] := by
   decide
 
 /-- the fan-out loop is `drive; if done { push; continue }; available = limit - len (or 0); to_drain =
@@ -830,6 +960,46 @@ theorem src_drive_arms :
        ("Err(ref e) if interrupted(e)", "replace(buf) continue"), ("Err(e)", "return true")] ∧
     Generated.tcp_would_block_body = "{ err.kind() == io::ErrorKind::WouldBlock }" ∧
     Generated.tcp_interrupted_body = "{ err.kind() == io::ErrorKind::Interrupted }" := by decide
+
+/-- **capacity plumbing** (round 6): the builder's default is `Some(1024)` and `Default` forwards to `new()`;
+    `buffer_size(..)` stores its argument; `build` hands the SAME value to the channel (`bounded(size)` /
+    `unbounded()`) and to `run_transport`; there `buffer_limit = buffer_size.unwrap_or(usize::MAX)` is bound once
+    and neither name is ever assigned again; the read loop stops at `buffered_pmsgs.len() >= buffer_limit`, wakes
+    itself and breaks, otherwise `try_recv`s, breaks on empty, returns on disconnect.  These are `Tcp.plumb`,
+    `Tcp.defaultBufferSize` and `TcpProd.tLoop` (deep race cases reach the numbers at run time). -/
+theorem src_capacity_plumbing :
+    Generated.tcp_builder_new_buffer = "Some(1024)" ∧
+    Generated.tcp_builder_default_body = "{ TcpBuilder::new() }" ∧
+    Generated.tcp_builder_buffer_size_stmts = ["self.buffer_size = size"] ∧
+    Generated.tcp_build_buffer_binding = ["self.buffer_size"] ∧
+    Generated.tcp_build_channel_arms = [("None", "unbounded()"), ("Some(size)", "bounded(size)")] ∧
+    Generated.tcp_build_spawn_call = "run_transport(poll, listener, rx, state, buffer_size)" ∧
+    Generated.tcp_transport_limit_bindings = ["let buffer_limit = buffer_size.unwrap_or(std::usize::MAX)"] ∧
+    Generated.tcp_transport_limit_assigns = 0 ∧
+    Generated.tcp_transport_prealloc = "buffer_size.map_or_else(VecDeque::new, VecDeque::with_capacity)" ∧
+    Generated.tcp_read_loop_guard = "buffered_pmsgs.len() >= buffer_limit" ∧
+    Generated.tcp_read_loop_tokens =
+      ["if", "wake", "break", "try_recv", "if", "is_empty", "break", "return", "push_back"] := by decide
+
+/-- `Handle` implements exactly the required methods of the three handle traits, each one a single
+    `push_metric` with its own operation; the provided method `HistogramFn::record_many` is NOT overridden, so it
+    is the trait's loop of `record` calls: `n` emissions, `n` frames (the harness calls it; a one-frame-per-batch
+    override would change this fact and lose `n - 1` frames at run time) -/
+theorem src_handle_methods :
+    Generated.tcp_handle_methods =
+      [("CounterFn::increment", "{ self.state.push_metric(&self.key, MetricOperation::IncrementCounter(value)) }"),
+       ("CounterFn::absolute", "{ self.state.push_metric(&self.key, MetricOperation::SetCounter(value)) }"),
+       ("GaugeFn::increment", "{ self.state.push_metric(&self.key, MetricOperation::IncrementGauge(value)) }"),
+       ("GaugeFn::decrement", "{ self.state.push_metric(&self.key, MetricOperation::DecrementGauge(value)) }"),
+       ("GaugeFn::set", "{ self.state.push_metric(&self.key, MetricOperation::SetGauge(value)) }"),
+       ("HistogramFn::record", "{ self.state.push_metric(&self.key, MetricOperation::RecordHistogram(value)) }")] := by
+  decide
+
+/-- the removal loop that ends the `WAKER` branch counts a client out only if it is still in the table
+    (`if let Some(..) = clients.get_mut(&token)`), removes it and decrements once: the model's `removedCount` /
+    `decN` of `wakeFull` (a token pushed twice by the two drives of one fan-out is counted once) -/
+theorem src_removal_loop :
+    Generated.tcp_removal_loop_tokens = ["if", "get_mut", "remove", "decrement_clients"] := by decide
 
 /-- every metric frame gets its own `SystemTime::now()` -/
 theorem src_timestamp_per_metric :
